@@ -1,0 +1,37 @@
+//go:build verif
+
+// Batch inversion of the extension types (comment-only; installed by /verif/gcv gen-contracts). Under contract: the
+// result has the length of the input, is freshly allocated, the input is not written, and the documented convention
+// "if a[i] == 0 then result[i] = a[i]" - every zero entry, at every position, yields zero (the flags recorded in the
+// first pass are exactly the zero tests of the entries, and the second pass never writes a flagged entry). That the
+// other entries are the inverses (prefix products, one inversion) is not stated.
+
+package extensions
+
+//@ func BatchInvertE2
+//@ layer ring E2
+//@ option nomerge
+//@ loop 0
+//@ + invariant[zero-flags] 0 <= i && i <= len(a) && len(res) == len(a) && len(zeroes) == len(a) && forall(j, 0, i, zeroes[j] == iszero(a[j])) && forall(j, i, len(a), !zeroes[j]) && forall(j, 0, len(a), (j >= i || iszero(a[j])) ==> res[j] == 0) && forall(j, 0, len(a), a[j] == old(a[j]))
+//@ loop 1
+//@ + invariant[zero-kept] -1 <= i && i < len(a) && len(res) == len(a) && len(zeroes) == len(a) && forall(j, 0, len(a), zeroes[j] == iszero(a[j])) && forall(j, 0, len(a), iszero(a[j]) ==> res[j] == 0) && forall(j, 0, len(a), a[j] == old(a[j]))
+//@ ensures[length] len(result) == len(a)
+//@ ensures[zero-stays-zero] forall(j, 0, len(a), iszero(a[j]) ==> result[j] == 0)
+//@ ensures[input] forall(j, 0, len(a), a[j] == old(a[j]))
+//@ ensures[fresh] fresh(result)
+//@ modifies nothing
+//@ end
+
+//@ func BatchInvertE4
+//@ layer ring E4
+//@ option nomerge
+//@ loop 0
+//@ + invariant[zero-flags] 0 <= i && i <= len(a) && len(res) == len(a) && len(zeroes) == len(a) && forall(j, 0, i, zeroes[j] == iszero(a[j])) && forall(j, i, len(a), !zeroes[j]) && forall(j, 0, len(a), (j >= i || iszero(a[j])) ==> res[j] == 0) && forall(j, 0, len(a), a[j] == old(a[j]))
+//@ loop 1
+//@ + invariant[zero-kept] -1 <= i && i < len(a) && len(res) == len(a) && len(zeroes) == len(a) && forall(j, 0, len(a), zeroes[j] == iszero(a[j])) && forall(j, 0, len(a), iszero(a[j]) ==> res[j] == 0) && forall(j, 0, len(a), a[j] == old(a[j]))
+//@ ensures[length] len(result) == len(a)
+//@ ensures[zero-stays-zero] forall(j, 0, len(a), iszero(a[j]) ==> result[j] == 0)
+//@ ensures[input] forall(j, 0, len(a), a[j] == old(a[j]))
+//@ ensures[fresh] fresh(result)
+//@ modifies nothing
+//@ end
